@@ -492,7 +492,11 @@ func (sv *Solver) buildReplay(fr *FuncResult, ax []axiomInfo, o *Obligation, dir
 	for i, p := range fn.Params {
 		pset[p.Name()] = true
 		e := rb.goExpr(fx.params[p.Name()], p.Type())
-		fmt.Fprintf(&body, "\t%s := %s\n\t_ = %s\n", p.Name(), e, p.Name())
+		if e == "nil" {
+			fmt.Fprintf(&body, "\tvar %s %s\n\t_ = %s\n", p.Name(), types.TypeString(p.Type(), qual(rb.fx.eng.tpkg)), p.Name())
+		} else {
+			fmt.Fprintf(&body, "\t%s := %s\n\t_ = %s\n", p.Name(), e, p.Name())
+		}
 		if i == 0 && sig.Recv() != nil {
 			continue
 		}
